@@ -128,6 +128,18 @@ pub fn run_case(c: &Case, st: &mut Stats) -> Option<(String, String)> {
             let s = steps[i];
             let had_writer = d.writer.is_some();
             let ok = d.step(s);
+            if s == Step::Reload && ok {
+                // a reload that returned Ok hands out a searcher that works (every file was opened): it shows a
+                // whole commit and its queries do not fail
+                st.count("reloads_ok");
+                if let Some(r) = d.reader.as_ref() {
+                    match crate::scen::fingerprint(&r.searcher()) {
+                        Ok(ids) if d.model.history.contains(&ids) || attempted_since_ok.contains(&ids) => {}
+                        Ok(ids) => return Some(("reload_ok_not_a_commit".to_string(), format!("step {i} Reload returned Ok but its searcher shows {ids:?}; commits: {:?}", d.model.history))),
+                        Err(e) => return Some(("reload_ok_searcher_unusable".to_string(), format!("step {i} Reload returned Ok but its searcher cannot be queried: {e}"))),
+                    }
+                }
+            }
             if matches!(s, Step::Commit | Step::CommitPayload) && had_writer {
                 if ok {
                     attempted_since_ok.clear();
@@ -175,8 +187,12 @@ pub fn run_case(c: &Case, st: &mut Stats) -> Option<(String, String)> {
                 // whatever failed, the storage holds the last ok commit or a failed commit's complete state
                 let committed = d.model.committed.clone();
                 let admissible = attempted_since_ok.clone();
+                let mut on_storage: Option<BTreeSet<u64>> = None;
                 let v = with_faults_off(&sim, &mut || match read_ids(&sim) {
-                    Ok(ids) if ids == committed || admissible.contains(&ids) => None,
+                    Ok(ids) if ids == committed || admissible.contains(&ids) => {
+                        on_storage = Some(ids);
+                        None
+                    }
                     Ok(ids) => Some(("storage_state_mixed_after_error".to_string(), format!("after the failed step {i} {s:?} a fresh open shows {ids:?}; last ok commit {committed:?}, failed commits {admissible:?}"))),
                     Err(e) => Some(("storage_unreadable_after_error".to_string(), format!("after the failed step {i} {s:?}: {e}"))),
                 });
@@ -196,6 +212,19 @@ pub fn run_case(c: &Case, st: &mut Stats) -> Option<(String, String)> {
                             d.step(Step::NewWriter);
                         }
                         Policy::GoOn => {}
+                    }
+                    // A commit can report an error after its commit point (the directory sync that makes the
+                    // replaced meta.json durable failed): the storage then holds that commit's complete state,
+                    // which is admissible, and a writer rolled back / opened afterwards starts from it. The
+                    // reference continues from what the storage holds, as the writer does.
+                    if c.policy != Policy::GoOn {
+                        if let Some(ids) = on_storage {
+                            if ids != d.model.committed {
+                                st.count("failed_commit_had_taken_effect");
+                                d.model.committed = ids.clone();
+                                d.model.working = ids;
+                            }
+                        }
                     }
                 }
             }
@@ -253,7 +282,7 @@ pub fn run_case(c: &Case, st: &mut Stats) -> Option<(String, String)> {
 }
 
 fn work_list(thorough: bool) -> Vec<Case> {
-    let wls: Vec<usize> = if thorough { (0..workloads().len()).collect() } else { vec![0, 1, 5] };
+    let wls: Vec<usize> = if thorough { (0..workloads().len()).collect() } else { vec![0, 1, 3, 5] };
     let cfgs: Vec<WlConfig> = if thorough { configs() } else { configs().into_iter().take(2).collect() };
     let mut out = vec![];
     for &wl in &wls {
@@ -303,6 +332,9 @@ pub fn worker(_family: &str, start: u64, end: u64, step: u64, arg: &str) {
 
 pub fn replay(case: &Value) -> Vec<Violation> {
     quiet_panics();
+    if case.get("point").is_some() {
+        return crate::preempt_family::replay(case);
+    }
     tantivy::verif_hooks::set_handler(Some(Arc::new(FastLockRetry)));
     let Ok(c) = serde_json::from_value::<Case>(case.clone()) else { return vec![] };
     let mut st = Stats::default();
@@ -339,9 +371,14 @@ pub fn run(ctx: &Ctx) -> Report {
     for i in [0, work.len() / 3, work.len() / 2, work.len() - 1] {
         st.sample(serde_json::to_value(&work[i]).unwrap());
     }
-    rep.set("exhaustive", o.complete && o.completed as usize == work.len());
+    // two deviations: a merge preempted by committed deletes, then one fault on the updater finishing it
+    let p = crate::preempt_family::run_family(ctx, "C11");
+    rep.set("preemption_plus_fault_scenarios", Value::Array(p.info));
+    let pcomplete = p.complete;
+    st.merge(p.st);
+    rep.set("exhaustive", o.complete && o.completed as usize == work.len() && pcomplete);
     rep.set("cases", work.len() as u64);
-    rep.set("rule", "for every workload (quick: add+commit, add+delete+commit; thorough: + merge+GC, reload, rollback+restart) x writer configuration (1-2 workers, dedicated compressor thread on/off) x every storage operation of the fault-free log, identified by (logical thread, index among that thread's operations) - create, write, flush, terminate, atomic write, atomic read, open, exists, delete, directory sync, lock - failing once or permanently from there on x three continuation policies after the first reported error (rollback, new writer, keep using the writer): no panic / abort / hang; every commit that returns Ok is complete, readable and checksum-clean in a fresh open; after any reported error the storage holds the last Ok commit or a failed commit's complete state; finally a new writer adds, commits and collects and the directory holds exactly the committed files. Non-trivial: cases whose fault fired; distinct by construction");
+    rep.set("rule", "for every workload (quick: add+commit, add+delete+commit; thorough: + merge+GC, reload, rollback+restart) x writer configuration (1-2 workers, dedicated compressor thread on/off) x every storage operation of the fault-free log, identified by (logical thread, index among that thread's operations) - create, write, flush, terminate, atomic write, atomic read, open, exists, delete, directory sync, lock - failing once or permanently from there on x three continuation policies after the first reported error (rollback, new writer, keep using the writer): no panic / abort / hang; every commit that returns Ok is complete, readable and checksum-clean in a fresh open; after any reported error the storage holds the last Ok commit or a failed commit's complete state; finally a new writer adds, commits and collects and the directory holds exactly the committed files; a reload that returns Ok hands out a searcher that shows a whole commit and can be queried. Two-deviation family: a merge of two committed segments is preempted at 2 (thorough 5) positions of its merge thread by {delete + commit; two delete commits; deleting a whole source + commit}, and afterwards every storage operation of the updater that reconciles and publishes the merge fails once: the published documents stay those of the last commit. Non-trivial: cases whose fault fired; distinct by construction");
     let fired = st.counters.get("faults_fired").copied().unwrap_or(0);
     for k in ["faults_fired", "api_errors", "commits_ok", "kind.create", "kind.write", "kind.terminate", "kind.atomic_write", "kind.sync_dir", "kind.delete", "kind.open_read"] {
         if st.counters.get(k).copied().unwrap_or(0) == 0 {
